@@ -303,7 +303,8 @@ Inductive lop :=
 | LClear (j : nat)                               (* Map.Clear, FromRaw(empty) *)
 | LPut (j : nat) (k : Z) (tag : nat) (z : Z) (newcap : nat)   (* Map.PutStr/Int/Double/Bool/Empty/EmptyBytes/EmptyMap/EmptySlice *)
 | LMapRemove (j : nat) (k : Z)
-| LFromRawP (j : nat) (zs : list Z).             (* primitive slice FromRaw *)
+| LFromRawP (j : nat) (zs : list Z)              (* primitive slice FromRaw *)
+| LFromRawB (j : nat) (zs : list Z).             (* Value.FromRaw([]byte): SetEmptyBytes().FromRaw(raw) — new wrapper, the bytes are copied *)
 
 Inductive op :=
 | ONew (n : nat)
@@ -336,6 +337,7 @@ Definition clocal (sc : schema) (o : lop) (r : crow) : option crow :=
   | LPut j k tag z newcap => on_slot j (on_cs (fun s => cmap_put sc s k tag z newcap)) r
   | LMapRemove j k => on_slot j (on_cs (fun s => cmap_remove s k)) r
   | LFromRawP j zs => on_slot j (on_cs (fun s => cprim_copy (prim_rows zs) s)) r
+  | LFromRawB j zs => on_slot j (fun _ => CR (Some (0, 7, [cprim_copy (prim_rows zs) (CS None)]))) r
   end.
 
 (* the slot with which a move leaves its source: nil slice, nil pointer, empty AnyValue, zero scalar *)
@@ -481,6 +483,7 @@ Definition vlocal (sc : schema) (o : lop) (r : vrow) : option vrow :=
   | LPut j k tag z _ => on_slot j (on_vs (fun s => vmap_put sc s k tag z)) r
   | LMapRemove j k => on_slot j (on_vs (fun s => vmap_remove s k)) r
   | LFromRawP j zs => on_slot j (on_vs (fun _ => VS (vprim_rows zs))) r
+  | LFromRawB j zs => on_slot j (fun _ => VR (Some (7, [VS (vprim_rows zs)]))) r
   end.
 
 Record ahandle := mkA { a_ro : bool; a_ty : nat; a_row : vrow }.
